@@ -331,6 +331,38 @@ func TestC14(t *testing.T) {
 				if k0 := rapid.IntRange(0, 7).Draw(t, "type0"); k0 == 0 {
 					body := rapid.SliceOfN(rapid.Byte(), 1, 24).Draw(t, "undefined-body")
 					op.Frame = ref.Reframe(byte(rapid.IntRange(0, 15).Draw(t, "nib")), body)
+				} else if k0 == 3 {
+					// PUBLISH with one of a few topic aliases, with or without
+					// a topic name: frames that refer to the same alias
+					m := model.New(model.PUBLISH)
+					m.TopicAlias = uint16(rapid.IntRange(1, 3).Draw(t, "alias"))
+					m.TopicName = rapid.SampledFrom([]string{"", "", "t/1", "t/2"}).Draw(t, "aliastopic")
+					m.Payload = []byte("x")
+					m.Normalize()
+					op.Frame = ref.Canonical(&m)
+					if rapid.Bool().Draw(t, "aliastriple") {
+						// the alias used without a topic, then defined by another
+						// frame, then the first frame decoded again: a topic
+						// alias is connection state, not something a decoder keeps
+						b := m.Clone()
+						b.TopicName = ""
+						a := m.Clone()
+						a.TopicName = rapid.SampledFrom([]string{"t/1", "t/2"}).Draw(t, "aliasdef")
+						first := opC14{Kind: "unmarshal", Frame: ref.Canonical(&b)}
+						c.Ops = append(c.Ops, first)
+						kinds = append(kinds, "unmarshal(alias, no topic)")
+						types[live] = model.PUBLISH
+						bslot := live
+						live++
+						op.Frame = ref.Canonical(&a)
+						c.Ops = append(c.Ops, op)
+						kinds = append(kinds, "unmarshal(alias defined)")
+						types[live] = model.PUBLISH
+						live++
+						c.Ops = append(c.Ops, opC14{Kind: "redecode", Slot: bslot})
+						kinds = append(kinds, "redecode")
+						continue
+					}
 				} else if k0 == 2 {
 					m := genSpecValid(t, model.CONNECT)
 					if m.Will == nil {
